@@ -342,9 +342,12 @@ fn gen_c16(seed: u64, idx: usize, tier: Tier) -> RunScenario {
     let maxw = if tier == Tier::Thorough { 48 } else { 16 };
     let shape = rng.below(12);
     // mostly 2..maxw; one in twelve a group of 33-48 members; one in twelve a 24-wide group late in a long plan
+    // one in twelve: 84-90 members under a descriptor limit of 384 or 512 (the unchanged tree needs 3.4-5.4 per member
+    // depending on the shape of the plan; a tree that gives up loudly under the limit is tolerated, one that hangs is not)
     let wide = match shape {
         0 => rng.range(33, 48),
         1 => 24,
+        2 => rng.range(84, 90),
         _ => rng.range(2, maxw),
     };
     // position of the wide layer: first (independent), middle (depends on a base, something depends on it), last
@@ -366,6 +369,18 @@ fn gen_c16(seed: u64, idx: usize, tier: Tier) -> RunScenario {
     for t in &targets {
         for c in &cmds {
             cmd_files.push(CmdFile { target: t.path.clone(), command: c.to_string(), rel: WorldSpec::default_cmd_rel(&t.path, c), exec: true, broken: false });
+        }
+    }
+    // one scenario in eight: one member of the wide layer (not the first) has a command file without the
+    // execute bit for one command: the members that are executable still rendezvous and complete, the run
+    // reports the failure
+    if wide >= 3 && rng.chance(1, 8) {
+        let k = rng.range(1, wide - 1);
+        let c = cmds[rng.below(cmds.len())];
+        for cf in cmd_files.iter_mut() {
+            if cf.target == format!("w{:02}", k) && cf.command == c {
+                cf.exec = false;
+            }
         }
     }
     // one scenario in eight: every member gets an argument list larger than a pipe buffer (64 KiB)
@@ -407,6 +422,9 @@ fn gen_c16(seed: u64, idx: usize, tier: Tier) -> RunScenario {
     script.workers = Some(*rng.pick(&[1u32, 1, 2, 4, 16]));
     script.flush_ms = Some(20);
     script.rand_seed = Some(rng.next_u64() % 1_000_000);
+    if shape == 2 {
+        script.nofile = Some(*rng.pick(&[384u64, 512]));
+    }
     RunScenario { spec, mode: Mode::All, script, hang_ms: default_hang_ms() }
 }
 
@@ -420,8 +438,17 @@ pub fn check_c16(ctx: &RunCtx, out: &mut Outcome) {
         out.violate("rendezvous", "member_not_started", format!("the controller releases no member before all have started, and the group never completed: {} (members parked at that moment: {:?})", h, started));
         return;
     }
-    if tr.code() != Some(0) {
+    let nonexec = ctx.sc.spec.cmd_files.iter().any(|c| !c.exec);
+    if nonexec {
+        out.fault("member_without_execute_permission_in_a_rendezvous_group", 1);
+    }
+    if tr.code() != Some(if nonexec { 1 } else { 0 }) {
         out.violate("rendezvous", "exit_status", format!("group of rendezvousing members did not complete: exit {:?} {}", tr.code(), tr.stderr_str()));
+        // under the injected descriptor limit the run may give up, loudly; it may not hang (judged above)
+        out.tolerate_loud_descriptor_exhaustion(ctx.sc.script.nofile.is_some());
+        if out.skipped.is_some() {
+            return;
+        }
     }
     // every member of every group started before the first release of that group (true by construction; asserted)
     let mut by_group: BTreeMap<usize, Vec<&crate::rundrv::HelperRec>> = BTreeMap::new();
@@ -537,15 +564,7 @@ fn gen_c05(seed: u64, idx: usize, _tier: Tier) -> RunScenario {
             // a command file of the second command is a plain, non-executable file when the run starts and
             // becomes executable while the first command is still being processed (an earlier step of the
             // run, or somebody else, fixed its mode): at its turn it is defined and executable, so it runs
-            let cmds = expanded_commands(&sc.spec, &sc.script.opts);
-            if cmds.len() >= 2 && !matches!(sc.mode, Mode::Changed { .. }) {
-                let c2 = cmds[1].clone();
-                let cands: Vec<usize> = (0..sc.spec.cmd_files.len()).filter(|&i| sc.spec.cmd_files[i].exec && !sc.spec.cmd_files[i].broken && sc.spec.cmd_files[i].command == c2).collect();
-                if !cands.is_empty() && cmds.iter().filter(|c| **c == c2).count() == 1 {
-                    let i = cands[rng.below(cands.len())];
-                    sc.script.env_actions.push(crate::rundrv::EnvAction { point: "run.group.done".into(), nth: 1, act: crate::rundrv::EnvAct::MakeHelper { rel: sc.spec.cmd_files[i].rel.clone() } });
-                }
-            }
+            late_exec(&mut rng, &mut sc);
         }
         _ => {}
     }
@@ -797,15 +816,18 @@ pub struct C06;
 fn gen_c06(seed: u64, idx: usize, _tier: Tier) -> RunScenario {
     let mut rng = Rng::new(scenario_seed(seed, "C06", idx));
     let fault_free = rng.chance(1, 4);
+    let very_wide = rng.chance(1, 25);
     let p = GenParams {
         max_t: 8,
         undefined_pct: if fault_free { 0 } else { 12 },
         nonexec_pct: if fault_free { 0 } else { 6 },
+        // a layer of 65-80 independent targets: wider than any batch size a scheduler might use
+        wide_group: if very_wide { Some(rng.range(65, 80)) } else { None },
         ..Default::default()
     };
     let spec = gen_world(&mut rng, &p);
     let mut opts = gen_opts(&mut rng, &spec);
-    let mode = gen_mode(&mut rng, &spec, &mut opts, true);
+    let mode = if very_wide { Mode::All } else { gen_mode(&mut rng, &spec, &mut opts, true) };
     opts.fail_on_undefined = !fault_free && rng.chance(1, 2);
     let mut behav = behav_exit0_all(&spec, &mut rng, 2);
     if !fault_free && !behav.is_empty() {
@@ -840,7 +862,25 @@ fn gen_c06(seed: u64, idx: usize, _tier: Tier) -> RunScenario {
         // which shutdown point gets the "compressor threads already gone" schedule (>= 2: after a first pair of sends)
         script.until_at = Some(rng.range(2, 3));
     }
-    RunScenario { spec, mode, script, hang_ms: default_hang_ms() }
+    let mut sc = RunScenario { spec, mode, script, hang_ms: default_hang_ms() };
+    if rng.chance(1, 12) {
+        late_exec(&mut rng, &mut sc);
+    }
+    sc
+}
+
+/// A command file of the run's second command is a plain, non-executable file when the run starts and becomes
+/// executable while the first command is still being processed: at its turn it is defined and executable.
+fn late_exec(rng: &mut Rng, sc: &mut RunScenario) {
+    let cmds = expanded_commands(&sc.spec, &sc.script.opts);
+    if cmds.len() >= 2 && !matches!(sc.mode, Mode::Changed { .. }) {
+        let c2 = cmds[1].clone();
+        let cands: Vec<usize> = (0..sc.spec.cmd_files.len()).filter(|&i| sc.spec.cmd_files[i].exec && !sc.spec.cmd_files[i].broken && sc.spec.cmd_files[i].command == c2).collect();
+        if !cands.is_empty() && cmds.iter().filter(|c| **c == c2).count() == 1 {
+            let i = cands[rng.below(cands.len())];
+            sc.script.env_actions.push(crate::rundrv::EnvAction { point: "run.group.done".into(), nth: 1, act: crate::rundrv::EnvAct::MakeHelper { rel: sc.spec.cmd_files[i].rel.clone() } });
+        }
+    }
 }
 
 pub fn check_c06(ctx: &RunCtx, out: &mut Outcome) {
